@@ -12,7 +12,7 @@ from vlib.systems import Sys, matrix_system, target_rows
 
 @st.composite
 def adaptive_case(draw, default_args=False):
-    sysd = draw(matrix_system(m=(2, 4), n=(2, 6), ub_kinds=("finite",), lb_kinds=("zero", "zero", "pos"),
+    sysd = draw(matrix_system(m=(2, 4), n=(2, 6), ub_kinds=("finite",), lb_kinds=("zero", "zero", "pos", "mixed-sign"),
                               K_kinds=("none", "scalar", "vector"), base_kinds=("none", "none", "scalar", "vector")))
     nrows = draw(st.one_of(st.integers(1, 8), st.sampled_from([1, 2, 20, 50])))
     regime = draw(st.sampled_from(["inside", "mixed", "mixed", "outside"]))
